@@ -153,6 +153,9 @@ typedef ogg_int16_t vorbis_fpu_control;
 
 #include <emmintrin.h>
 static __inline int vorbis_ftoi(double f){
+        /* cvtsd2si yields INT_MIN for values beyond INT_MAX, which callers
+           would then clip to their *negative* limit */
+        if(f>=2147483647.)return 2147483647;
         return _mm_cvtsd_si32(_mm_load_sd(&f));
 }
 
